@@ -1,4 +1,4 @@
-CONSTANTS MaxChar = 1  WordLen = 1  Full = FALSE
+CONSTANTS MaxChar = 2  WordLen = 1  Full = FALSE
 INIT InitC
 NEXT NextC
 INVARIANTS Wf NullOk Involution ClassUniform
